@@ -94,7 +94,11 @@ def _decide(agent, markets):
         if act == "none":
             break
         accessible = [m for m in markets if agent.is_market_accessible(m.market_id)]
-        m = accessible[g.choice(f"{tag}_mkt", len(accessible))] if len(accessible) > 1 else accessible[0]
+        mbt = menu.get("market_by_time")
+        if mbt is not None and str(t) in mbt:
+            m = accessible[mbt[str(t)]]
+        else:
+            m = accessible[g.choice(f"{tag}_mkt", len(accessible))] if len(accessible) > 1 else accessible[0]
         if act == "cancel":
             mine = ctx.own_orders.get(aid, [])
             if not mine:
